@@ -1,4 +1,234 @@
-import Model.Pipeline
+import Proofs.Pipeline
+/-!
+# C13  Pipelines connect stage i to stage i+1 and nothing else, however composed
+
+Model: `Pipe.eval` (the `|` operators, `from_exec_iter`, the pipeline-level stdin/stdout setters),
+`Pipe.run` (the spawn loop of `Pipeline::popen` and the terminators), `Pipe.flow` (data carried through
+the attachments of the started commands, each command i being an arbitrary function `f i` from the
+bytes on its stdin to the bytes it writes).  All theorems hold for every number of commands, every
+composition shape, every stdin/stdout kind, every terminator and all stage functions.
+The kernel's pipe semantics (a pipe delivers the bytes written, in order, to its single reader) and the
+shared file offset of the stderr sink are outside the model; the real runs with tagged transforms,
+distinct exit codes and up to 120000 lines cover them.
+-/
 namespace Pipe
-theorem c13_placeholder : stepHeld Held.empty .io = Held.empty := rfl
+
+/-- **C13 (however composed).**  Whatever expression built from `|`, `from_exec_iter` and the
+    pipeline-level setters evaluates to a pipeline, its commands are the leaves of the expression
+    from left to right (at least two); a bare command evaluates to itself. -/
+theorem c13_shape_independent {α : Type} (e : Expr α) :
+    (∀ p, eval e = some (.pipeline p) → p.cmds = leaves e ∧ 2 ≤ p.cmds.length) ∧
+    (∀ a, eval e = some (.exec a) → leaves e = [a]) := by
+  induction e with
+  | cmd a => simp [eval, leaves]
+  | fromIter l =>
+    simp only [eval, leaves]
+    constructor
+    · intro p hp
+      split at hp
+      · simp at hp
+      · simp only [Option.some.injEq, Val.pipeline.injEq] at hp; subst hp; exact ⟨rfl, by simpa using ‹¬ l.length < 2›⟩
+    · intro a ha; split at ha <;> simp at ha
+  | setIn e k ih =>
+    simp only [eval, leaves]
+    constructor
+    · intro p hp
+      split at hp
+      · rename_i q hq; simp only [Option.some.injEq, Val.pipeline.injEq] at hp; subst hp; exact ih.1 q hq
+      · simp at hp
+    · intro a ha; split at ha <;> simp at ha
+  | setOut e k ih =>
+    simp only [eval, leaves]
+    constructor
+    · intro p hp
+      split at hp
+      · rename_i q hq; simp only [Option.some.injEq, Val.pipeline.injEq] at hp; subst hp; exact ih.1 q hq
+      · simp at hp
+    · intro a ha; split at ha <;> simp at ha
+  | or l r ihl ihr =>
+    simp only [eval, leaves]
+    constructor
+    · intro p hp
+      split at hp
+      · rename_i a b ha hb
+        simp only [Option.some.injEq, Val.pipeline.injEq] at hp; subst hp
+        simp [ihl.2 a ha, ihr.2 b hb]
+      · rename_i q b hq hb
+        simp only [Option.some.injEq, Val.pipeline.injEq] at hp; subst hp
+        have := ihl.1 q hq
+        have hlen := this.2
+        rw [this.1] at hlen
+        simp [this.1, ihr.2 b hb]; omega
+      · rename_i q q' hq hq'
+        simp only [Option.some.injEq, Val.pipeline.injEq] at hp; subst hp
+        have h1 := ihl.1 q hq
+        have h2 := ihr.1 q' hq'
+        have hl1 := h1.2
+        have hl2 := h2.2
+        rw [h1.1] at hl1
+        rw [h2.1] at hl2
+        simp [h1.1, h2.1]; omega
+      · simp at hp
+    · intro a ha; split at ha <;> simp at ha
+
+/-- the pipeline-level stdout of `p | q` is `q`'s, its stdin is `p`'s -/
+theorem c13_settings_of_composition {α : Type} (l r : Expr α) (p q : PDesc α)
+    (hl : eval l = some (.pipeline p)) (hr : eval r = some (.pipeline q)) :
+    ∃ s, eval (.or l r) = some (.pipeline s) ∧ s.sin = p.sin ∧ s.sout = q.sout := by
+  simp [eval, hl, hr]
+
+/-- **C13 (stage i feeds exactly stage i+1).**  When all commands start, they are started in order
+    with the attachments `att0/att1/att2`; command i writes into pipe `2+i` and command i+1 -- and
+    no other command, on no other descriptor -- reads it; the first command's stdin and the last
+    command's stdout are what the pipeline was configured with; every command's stderr is the shared sink. -/
+theorem c13_wiring (c0 : Cfg) (t : Term) (h : AllStart c0) :
+    let c := effective c0 t
+    (run c0 t).filterMap spawnOf = (List.range c.n).map (fun i => (i, att0 c i, att1 c i, att2 c t)) ∧
+    (∀ i, i + 1 < c.n → att1 c i = .pipe (2 + i) ∧ att0 c (i + 1) = .pipe (2 + i) ∧
+      (∀ j, j ≠ i → att1 c j ≠ .pipe (2 + i)) ∧ (∀ j, j ≠ i + 1 → att0 c j ≠ .pipe (2 + i)) ∧
+      att2 c t ≠ .pipe (2 + i)) ∧
+    ((c.sin = .inherit → att0 c 0 = .inherit) ∧ (c.sin = .file → att0 c 0 = .file) ∧
+      (hasInPipe c = true → att0 c 0 = .pipe 1)) ∧
+    (0 < c.n → (c.sout = .inherit → att1 c (c.n - 1) = .inherit) ∧ (c.sout = .file → att1 c (c.n - 1) = .file) ∧
+      (c.sout = .pipe → att1 c (c.n - 1) = .pipe (2 + (c.n - 1)))) := by
+  intro c
+  refine ⟨spawnOf_runEff c t (effective_allStart c0 t h), ?_, ?_, ?_⟩
+  · intro i hi
+    refine ⟨by simp [att1, hi], att0_succ c i, ?_, ?_, ?_⟩
+    · intro j hj
+      unfold att1
+      split
+      · simp; omega
+      · cases c.sout <;> simp <;> omega
+    · intro j hj
+      unfold att0
+      split
+      · cases c.sin <;> simp <;> omega
+      · simp; omega
+    · unfold att2
+      (repeat' split) <;> simp <;> omega
+  · refine ⟨fun h => by simp [att0, h], fun h => by simp [att0, h], att0_zero_pipe c⟩
+  · intro hn
+    have : ¬ (c.n - 1 + 1 < c.n) := by omega
+    refine ⟨fun h => by simp [att1, this, h], fun h => by simp [att1, this, h], fun h => by simp [att1, this, h]⟩
+
+/-- **C13 (the result equals the composition of the stages applied in order).**  For all stage
+    functions `f`, every input, every number of commands n ≥ 1, every stdin/stdout kind and every
+    terminator: what reaches the pipeline's configured output is `f (n-1) (… (f 1 (f 0 input)))`;
+    the input reaches only the first command, the output receives only the last command's. -/
+theorem c13_composition (f : Nat → List Nat → List Nat) (input : List Nat) (c0 : Cfg) (t : Term)
+    (h : AllStart c0) (hn : 0 < c0.n) :
+    result (effective c0 t) (flow f input (flow0 input) (run c0 t)) = compose f c0.n input := by
+  have hn' : 0 < (effective c0 t).n := by rw [effective_n]; exact hn
+  unfold run
+  rw [flow_eq, spawnOf_runEff _ t (effective_allStart c0 t h)]
+  have := (flow_stages f input (effective c0 t) (att2 (effective c0 t) t) (effective c0 t).n (Nat.le_refl _)).2.2.1 hn' rfl
+  rw [effective_n] at this ⊢
+  simpa [effective_n] using this
+
+/-- **C13 (nothing else).**  At every start of a command the parent holds no inheritable pipe end
+    other than the ones installed as that command's stdin/stdout/stderr -- so no command holds an
+    end of a pipe between two other commands, of the pipeline's stdin/stdout pipes or of the shared
+    stderr pipe (this is also C08 "as a stage of a pipeline"). -/
+theorem c13_nothing_else (c0 : Cfg) (t : Term) : SpawnsClean Held.empty (run c0 t) := by
+  unfold run
+  cases hf : (effective c0 t).failAt with
+  | none => exact runEff_ok_clean _ t (Or.inl hf)
+  | some k =>
+    by_cases hk : k < (effective c0 t).n
+    · exact runEff_fail_clean _ t k hf hk
+    · exact runEff_ok_clean _ t (Or.inr ⟨k, hf, by omega⟩)
+
+def waitRetIdx : Act → Option Nat
+  | .waitRet j => some j
+  | _ => none
+
+/-- **C13 (join and capture return the last command's status, after all commands have exited).**
+    The only wait whose status is returned is for command n-1; the return is the very last action,
+    and before it every command that is not detached has been waited for. -/
+theorem c13_status_of_last (c0 : Cfg) (t : Term) (ht : t = .join ∨ t = .capture) (h : AllStart c0) :
+    ∃ pre, run c0 t = pre ++ [.ret true] ∧ pre.filterMap waitRetIdx = [c0.n - 1] ∧ pre.filterMap retVal = [] ∧
+      ∀ j, j < c0.n → (effective c0 t).det j = false → j ∈ pre.filterMap waitIdx := by
+  have hA := effective_allStart c0 t h
+  have hnn := effective_n c0 t
+  have wr_closes : ∀ es : List End, (es.map Act.close).filterMap waitRetIdx = [] :=
+    fun es => filterMap_closes waitRetIdx (by simp [waitRetIdx]) es
+  have wr_stage : ∀ c a2 i, (stageOk c a2 i).filterMap waitRetIdx = [] := by
+    intro c a2 i
+    simp [stageOk, List.filterMap_append, filterMap_mkActs waitRetIdx (by simp [waitRetIdx]), wr_closes, waitRetIdx]
+  have wr_stages : ∀ c a2 k, ((List.range k).flatMap (stageOk c a2)).filterMap waitRetIdx = [] := by
+    intro c a2 k
+    rw [filterMap_range_flatMap waitRetIdx _ (fun _ => []) (wr_stage c a2)]; simp
+  have wr_drop : ∀ c tk w k, (dropVec c tk w k).filterMap waitRetIdx = [] := by
+    intro c tk w k
+    unfold dropVec
+    rw [filterMap_range_flatMap waitRetIdx _ (fun _ => [])]
+    · simp
+    · intro j; unfold dropPopen
+      simp only [List.filterMap_append, wr_closes]
+      split <;> simp [waitRetIdx]
+  have r_closes : ∀ es : List End, (es.map Act.close).filterMap retVal = [] :=
+    fun es => filterMap_closes retVal (by simp [retVal]) es
+  have w_closes : ∀ es : List End, (es.map Act.close).filterMap waitIdx = [] :=
+    fun es => filterMap_closes waitIdx (by simp [waitIdx]) es
+  have memw : ∀ (c : Cfg) (tk : List End) (j : Nat), j < c.n → c.det j = false →
+      j ∈ (c.n - 1) :: (dropVec c tk (fun j => decide (j = c.n - 1)) c.n).filterMap waitIdx := by
+    intro c tk j hj hd
+    rw [waits_dropVec]
+    by_cases hl : j = c.n - 1
+    · simp [hl]
+    · simp [hl, hd, hj]
+  have s1 : ∀ a b c, List.filterMap waitRetIdx [Act.mk a b c] = [] := fun _ _ _ => rfl
+  have s2 : ∀ e, List.filterMap waitRetIdx [Act.close e] = [] := fun _ => rfl
+  have s3 : List.filterMap waitRetIdx [Act.io] = [] := rfl
+  have s4 : ∀ j, List.filterMap waitRetIdx [Act.waitRet j] = [j] := fun _ => rfl
+  have s5 : ∀ a b c, List.filterMap retVal [Act.mk a b c] = [] := fun _ _ _ => rfl
+  have s6 : ∀ e, List.filterMap retVal [Act.close e] = [] := fun _ => rfl
+  have s7 : List.filterMap retVal [Act.io] = [] := rfl
+  have s8 : ∀ j, List.filterMap retVal [Act.waitRet j] = [] := fun _ => rfl
+  have s9 : ∀ a b c, List.filterMap waitIdx [Act.mk a b c] = [] := fun _ _ _ => rfl
+  have s10 : ∀ e, List.filterMap waitIdx [Act.close e] = [] := fun _ => rfl
+  have s11 : List.filterMap waitIdx [Act.io] = [] := rfl
+  have s12 : ∀ j, List.filterMap waitIdx [Act.waitRet j] = [j] := fun _ => rfl
+  unfold run
+  rw [runEff_ok _ t hA]
+  rcases ht with rfl | rfl
+  · refine ⟨(if capPipe (effective c0 .join) .join then [Act.mk 0 true true] else []) ++
+        (List.range (effective c0 .join).n).flatMap (stageOk (effective c0 .join) (att2 (effective c0 .join) .join)) ++
+        (if capPipe (effective c0 .join) .join then [Act.close ⟨0, .w⟩] else []) ++
+        ([.waitRet ((effective c0 .join).n - 1)] ++
+          dropVec (effective c0 .join) [] (fun j => j = (effective c0 .join).n - 1) (effective c0 .join).n),
+      by simp only [tail, List.append_assoc], ?_, ?_, ?_⟩
+    · simp only [List.filterMap_append, wr_stages, wr_drop]
+      cases capPipe (effective c0 .join) .join <;> simp [s1, s2, s3, s4, hnn]
+    · simp only [List.filterMap_append, rets_stages, rets_dropVec]
+      cases capPipe (effective c0 .join) .join <;> simp [s5, s6, s7, s8]
+    · intro j hj hd
+      simp only [List.filterMap_append, waits_stages]
+      have := memw (effective c0 .join) [] j (by omega) hd
+      cases capPipe (effective c0 .join) .join <;> simpa [s9, s10, s11, s12] using this
+  · refine ⟨(if capPipe (effective c0 .capture) .capture then [Act.mk 0 true true] else []) ++
+        (List.range (effective c0 .capture).n).flatMap (stageOk (effective c0 .capture) (att2 (effective c0 .capture) .capture)) ++
+        (if capPipe (effective c0 .capture) .capture then [Act.close ⟨0, .w⟩] else []) ++
+        ([.io] ++ (commWriteEnds (effective c0 .capture)).map Act.close ++ [.waitRet ((effective c0 .capture).n - 1)] ++
+          dropVec (effective c0 .capture) (commEnds (effective c0 .capture) .capture)
+            (fun j => j = (effective c0 .capture).n - 1) (effective c0 .capture).n ++
+          (commReadEnds (effective c0 .capture) .capture).map Act.close),
+      by simp only [tail, List.append_assoc], ?_, ?_, ?_⟩
+    · simp only [List.filterMap_append, wr_stages, wr_drop, wr_closes]
+      cases capPipe (effective c0 .capture) .capture <;> simp [s1, s2, s3, s4, hnn]
+    · simp only [List.filterMap_append, rets_stages, rets_dropVec, r_closes]
+      cases capPipe (effective c0 .capture) .capture <;> simp [s5, s6, s7, s8]
+    · intro j hj hd
+      simp only [List.filterMap_append, waits_stages, w_closes]
+      have := memw (effective c0 .capture) (commEnds (effective c0 .capture) .capture) j (by omega) hd
+      cases capPipe (effective c0 .capture) .capture <;> simpa [s9, s10, s11, s12] using this
+
+/-! Non-vacuity (tests, labelled as tests) -/
+example : (eval (.or (.or (.cmd 1) (.cmd 2)) (.or (.cmd 3) (.cmd 4)) : Expr Nat)).map
+    (fun v => match v with | .pipeline p => p.cmds | .exec a => [a]) = some [1, 2, 3, 4] := by decide
+example : (run { n := 3, det := fun _ => false, sin := .file, sout := .pipe, serr := .inherit, errTo := false,
+                 failAt := none } .capture).filterMap spawnOf =
+    [(0, .file, .pipe 2, .pipe 0), (1, .pipe 2, .pipe 3, .pipe 0), (2, .pipe 3, .pipe 4, .pipe 0)] := by decide
+
 end Pipe
